@@ -981,7 +981,7 @@ func ruleNumericUnconditional(c *Ctx, rule string) {
 	}
 	var call *ssa.Call
 	c.eachFamOwn(m.E, func(i ssa.Instruction) {
-		if cl, ok := i.(*ssa.Call); ok && cl.Call.StaticCallee() == ext {
+		if cl, ok := i.(*ssa.Call); ok && cl.Call.StaticCallee() == ext && m.instLoc(c, cl.Call.Args[0], map[ssa.Value]bool{}) == "same" {
 			call = cl
 		}
 	})
